@@ -1,10 +1,14 @@
 package props
 
 import (
+	"bytes"
 	"encoding/json"
 	"fmt"
 	"net/http"
 	"net/http/httptest"
+	"os"
+	"os/exec"
+	"strconv"
 	"strings"
 	"sync"
 	"time"
@@ -15,7 +19,78 @@ import (
 	"verif/tlc"
 )
 
-func init() { Registry["C11"] = C11 }
+func init() {
+	Registry["C11"] = C11
+	Workers["c11par"] = c11ParWorker
+}
+
+// c11ParWorker: responses of parallel requests must equal the responses of the same requests run alone.
+func c11ParWorker() {
+	nreq, _ := strconv.Atoi(os.Getenv("VERIF_N"))
+	inflightN, _ := strconv.Atoi(os.Getenv("VERIF_INFLIGHT"))
+	var sb strings.Builder
+	restore := rt.CaptureOutput(&sb)
+	defer restore()
+	sess := rt.NewSession()
+	sess.VM.RegisterFunction("verif_whoami", func() string { return "?" })
+	sess.VM.RegisterFunction("verif_gate", func(me string) string { return "end" })
+	if r := sess.Exec(c11Handler, "/verif-virtual/c11.zy"); r.ParseErr != "" || r.Uncaught != "" || r.Panic != "" {
+		fmt.Fprintf(os.Stderr, "setup failed: %+v\n", r)
+		os.Exit(2)
+	}
+	sv, _ := sess.Var("server").(interface{ GetSource() any })
+	mux, _ := sv.GetSource().(*http.ServeMux)
+	render := func(rec *httptest.ResponseRecorder) string {
+		res := rec.Result()
+		return fmt.Sprintf("%d|%s|%s|%s|%s", res.StatusCode, res.Header.Get("X-Id"), res.Header.Get("X-Echo"), res.Header.Get("X-Mw"), rec.Body.String())
+	}
+	mkReq := func(i int) *http.Request {
+		route := "/w"
+		if i%2 == 1 {
+			route = "/m" // behind a script middleware
+		}
+		return c11NewRequest(fmt.Sprintf("%s/%d", route, i), fmt.Sprintf("q%d", i), fmt.Sprintf("&n=%d", i%23))
+	}
+	alone := make([]string, nreq)
+	for i := 0; i < nreq; i++ {
+		rec := httptest.NewRecorder()
+		mux.ServeHTTP(rec, mkReq(i))
+		alone[i] = render(rec)
+	}
+	par := make([]string, nreq)
+	pans := make([]any, nreq)
+	var wg sync.WaitGroup
+	inflight := make(chan struct{}, inflightN)
+	for i := 0; i < nreq; i++ {
+		wg.Add(1)
+		inflight <- struct{}{}
+		go func(i int) {
+			defer wg.Done()
+			defer func() { <-inflight }()
+			defer func() { pans[i] = recover() }()
+			rec := httptest.NewRecorder()
+			mux.ServeHTTP(rec, mkReq(i))
+			par[i] = render(rec)
+		}(i)
+	}
+	wg.Wait()
+	emit := func(m kf.Mismatch) {
+		b, _ := json.Marshal(m)
+		fmt.Println("MISMATCH " + string(b))
+	}
+	bad := 0
+	for i := 0; i < nreq && bad < 30; i++ {
+		route := []string{"plain", "middleware"}[i%2]
+		if pans[i] != nil {
+			bad++
+			emit(kf.Mismatch{ID: "C11/parallel/route=" + route + "/kind=panic", Expected: alone[i], Observed: fmt.Sprint(pans[i]), ObsKey: "panic", Input: i})
+		} else if par[i] != alone[i] {
+			bad++
+			emit(kf.Mismatch{ID: "C11/parallel/route=" + route + "/kind=response", Expected: alone[i], Observed: par[i], ObsKey: "differs", Input: i})
+		}
+	}
+	fmt.Printf("DONE %d\n", nreq)
+}
 
 type c11Act struct {
 	Op, R, Kind string
@@ -65,6 +140,23 @@ $server->post('/w/{id}', function ($req, $res) {
   $res->header('X-Id', $id);
   $res->header('X-Echo', $req->header('X-Who'));
   $res->write("id=" . $id . ";n=" . $n . ";tot=" . $tot . ";sum=" . $acc->sum() . ";fib=" . fib($n % 12) . ";in=" . $req->input('pw') . ";");
+});
+// the same handler behind a script middleware that writes before and after the handler
+$server->middleware(function ($req, $res, $next) {
+  $who = $req->header('X-Who');
+  $res->header('X-Mw', $who);
+  $res->write("<" . $who);
+  $next($req, $res);
+  $res->write(">" . $who);
+});
+$server->post('/m/{id}', function ($req, $res) {
+  $req->parseForm();
+  $id = $req->pathValue('id');
+  $n = (int)$req->input('n');
+  $s = "";
+  for ($i = 0; $i < $n; $i++) { $s = $s . $i; }
+  $res->header('X-Id', $id);
+  $res->write("[" . $id . "|" . $s . "|" . $req->input('pw') . "]");
 });
 `
 
@@ -143,9 +235,15 @@ func C11(c *Ctx) *kf.Report {
 		}
 		return "?"
 	})
+	var wrongLocal []string
 	sess.VM.RegisterFunction("verif_gate", func(me string) string {
 		mu.Lock()
 		r := byName[me]
+		// the handler local $me must still hold the identity of the request this goroutine serves
+		if own := byGID[curGID()]; own != nil && own.name != me {
+			wrongLocal = append(wrongLocal, fmt.Sprintf("request %s finds %q in its local $me", own.name, me))
+			r = own
+		}
 		mu.Unlock()
 		if r == nil {
 			return "end"
@@ -191,6 +289,7 @@ func C11(c *Ctx) *kf.Report {
 	}
 
 	paths, reads := 0, 0
+	broken := false
 	nontrivial := map[string]bool{}
 	var samples []any
 	limit := c.Pick(12000, 200000)
@@ -223,6 +322,12 @@ func C11(c *Ctx) *kf.Report {
 				if !wait(live[a.R].done) {
 					stalled = true
 				}
+			}
+			if len(wrongLocal) > 0 {
+				rep.Add(kf.Mismatch{ID: "C11/kind=local/foreign", Expected: "handler locals belong to the request being served", Observed: wrongLocal, ObsKey: "foreign-local", Input: sched})
+				wrongLocal = nil
+				broken = true
+				return
 			}
 			if stalled {
 				rep.Infraf("C11: request stalled at %v", sched)
@@ -291,9 +396,12 @@ func C11(c *Ctx) *kf.Report {
 	g.AllPaths(64, func(_ string, _ []graph.Edge) bool { total++; return total <= limit })
 	exhaustive := total <= limit
 	if exhaustive {
-		g.AllPaths(64, func(_ string, p []graph.Edge) bool { runPath(append([]graph.Edge{}, p...)); return len(rep.Infra) == 0 })
+		g.AllPaths(64, func(_ string, p []graph.Edge) bool {
+			runPath(append([]graph.Edge{}, p...))
+			return len(rep.Infra) == 0 && !broken
+		})
 	} else {
-		for i := 0; i < limit && len(rep.Infra) == 0; i++ {
+		for i := 0; i < limit && len(rep.Infra) == 0 && !broken; i++ {
 			_, p := g.RandomPath(rng, 64)
 			runPath(p)
 		}
@@ -302,45 +410,41 @@ func C11(c *Ctx) *kf.Report {
 	rep.Coverage["forced_exhaustive"] = exhaustive
 	rep.Coverage["reads_compared"] = reads
 
-	// 3. parallel vs alone (handlers without superglobals)
-	nreq := c.Pick(500, 5000)
-	alone := map[int]string{}
-	render := func(rec *httptest.ResponseRecorder) string {
-		res := rec.Result()
-		return fmt.Sprintf("%d|%s|%s|%s", res.StatusCode, res.Header.Get("X-Id"), res.Header.Get("X-Echo"), rec.Body.String())
-	}
-	mkReq := func(i int) *http.Request {
-		return c11NewRequest(fmt.Sprintf("/w/%d", i), fmt.Sprintf("q%d", i), fmt.Sprintf("&n=%d", i%23))
-	}
-	for i := 0; i < nreq; i++ {
-		rec := httptest.NewRecorder()
-		mux.ServeHTTP(rec, mkReq(i))
-		alone[i] = render(rec)
-	}
-	par := make([]string, nreq)
-	pans := make([]any, nreq)
-	var wg sync.WaitGroup
-	inflight := make(chan struct{}, 2+int(c.Seed%63))
-	for i := 0; i < nreq; i++ {
-		wg.Add(1)
-		inflight <- struct{}{}
-		go func(i int) {
-			defer wg.Done()
-			defer func() { <-inflight }()
-			defer func() { pans[i] = recover() }()
-			rec := httptest.NewRecorder()
-			mux.ServeHTTP(rec, mkReq(i))
-			par[i] = render(rec)
-		}(i)
-	}
-	wg.Wait()
-	for i := 0; i < nreq; i++ {
-		if pans[i] != nil {
-			rep.Add(kf.Mismatch{ID: "C11/parallel/kind=panic", Expected: alone[i], Observed: fmt.Sprint(pans[i]), ObsKey: "panic", Input: i})
-		} else if par[i] != alone[i] {
-			rep.Add(kf.Mismatch{ID: "C11/parallel/kind=response", Expected: alone[i], Observed: par[i], ObsKey: "differs", Input: i})
+	// 3. parallel vs alone (handlers without superglobals), in a subprocess: a crash of the interpreter
+	// under parallel requests must not take the checker down
+	nreq := c.Pick(600, 6000)
+	inflightN := 2 + int(c.Seed%63)
+	cmd := exec.Command(c.Self, "-worker", "c11par")
+	cmd.Env = append(os.Environ(), fmt.Sprintf("VERIF_N=%d", nreq), fmt.Sprintf("VERIF_INFLIGHT=%d", inflightN))
+	var pout, perr bytes.Buffer
+	cmd.Stdout, cmd.Stderr = &pout, &perr
+	tm := time.AfterFunc(10*time.Minute, func() { cmd.Process.Kill() })
+	perrRun := cmd.Run()
+	tm.Stop()
+	nPar := 0
+	for _, line := range strings.Split(pout.String(), "\n") {
+		if strings.HasPrefix(line, "MISMATCH ") {
+			var m kf.Mismatch
+			if json.Unmarshal([]byte(line[9:]), &m) == nil {
+				rep.Add(m)
+			}
+		}
+		if strings.HasPrefix(line, "DONE ") {
+			fmt.Sscanf(line, "DONE %d", &nPar)
 		}
 	}
+	if perrRun != nil || nPar == 0 {
+		tail := perr.String()
+		if len(tail) > 2500 {
+			tail = tail[:2500]
+		}
+		if strings.Contains(tail, "fatal error") || strings.Contains(tail, "panic") || strings.Contains(tail, "SIGSEGV") {
+			rep.Add(kf.Mismatch{ID: "C11/parallel/kind=crash", Expected: "parallel requests are served", Observed: tail, ObsKey: "crash", Input: map[string]any{"requests": nreq, "inflight": inflightN}})
+		} else {
+			rep.Infraf("c11par worker: %v\n%s", perrRun, tail)
+		}
+	}
+	inflight := make(chan struct{}, inflightN)
 	rep.Coverage["parallel_requests"] = nreq
 	rep.Coverage["parallel_inflight"] = cap(inflight)
 	rep.Coverage["traces_validated_against_impl"] = paths + nreq
